@@ -60,6 +60,10 @@ def run_tv(ctx, n_tables, max_len=800):
         metas.append({'list': '2-D 2x3'})
         recs.append(tt.record_flatten([[dfs[k]], [dfs[k + 1]], [dfs[k + 2]]], [7, 8, 9], True))
         metas.append({'list': '2-D 3x1'})
+        recs.append(tt.record_flatten([dfs[k], dfs[k + 1], dfs[k]], [31, 32, 33], False))
+        metas.append({'list': '1-D of 3, the same table object at positions 0 and 2'})
+        recs.append(tt.record_flatten([[dfs[k], dfs[k + 1]], [dfs[k + 1], dfs[k]]], [41, 42, 43, 44], True))
+        metas.append({'list': '2-D 2x2, every table object twice'})
         recs.append(tt.record_flatten([dfs[k]], [4], False))
         metas.append({'list': '1-D of 1'})
         recs.append(tt.record_flatten([[dfs[k + 1]]], [6], True))
